@@ -47,11 +47,14 @@ func mustJSON(v any) []byte {
 	return data
 }
 
-func newUniverse() *universe {
+func newUniverse() *universe { return newUniverseNamed([]string{"r", "s"}, []string{"t", "u"}) }
+
+// newUniverseNamed builds the universe over the given repository names and tags.
+func newUniverseNamed(repos, tags []string) *universe {
 	u := &universe{
-		Repos: []string{"r", "s"},
+		Repos: repos,
 		Blobs: [][]byte{[]byte(""), []byte("x"), []byte("yy")},
-		Tags:  []string{"t", "u"},
+		Tags:  tags,
 	}
 	b1 := descOf(mtOctet, u.Blobs[1])
 	b2 := descOf(mtOctet, u.Blobs[2])
